@@ -168,6 +168,13 @@ def k_report(ctx, p):
     ctx.check("report.roundtrip", ok and e is True, "decoded_report_not_equal_to_original", "failure" if sub % 2 == 0 else "success", case, observed=repr(e))
     ok, ft = attempt(s1.Service1Tm.from_tm, u.pus_tm, up)
     ctx.check("report.roundtrip", ok and ft.tc_req_id.as_u32() == tc_v32 and bytes(ft.pack()) == want, "from_tm", f"sub={sub}", case)
+    # the report object (built and decoded) re-used for the next packet: header fields changed through the wrapped packet, packed again
+    for label, obj in (("built", rep), ("decoded", u)):
+        apid2, count2 = (p["apid"] ^ 0x155) & 0x7FF, (count + 0x2001) & 0x3FFF
+        ok, raw2 = attempt(lambda: (setattr(obj.pus_tm, "apid", apid2), setattr(obj.pus_tm.sp_header, "seq_count", count2), bytes(obj.pack()))[2])
+        want2 = P.tm(apid2, count2, 1, sub, 0, 0, 0, ts, src)
+        ctx.check("report.repack_after_change", ok and raw2 == want2, "octets_after_header_change", f"{label}/" + ("crc" if ok and raw2[:-2] == want2[:-2] else "fields"), case,
+                  observed=raw2 if ok else repr(raw2), expected=want2)
 
 
 def k_param_match(ctx, sub, has_step, has_notice, sub_as="enum"):
@@ -342,5 +349,5 @@ def conclude(ctx):
         ctx.require(ctx.classes.get(f"rid/{route}", 0) > 0, f"route {route} not exercised")
     for c in ("rid_pair/equal", "rid_pair/onebit", "rid_pair/different"):
         ctx.require(ctx.classes.get(c, 0) > 0, f"class {c} empty")
-    for m in ("rid.pack", "rid.as_u32", "rid.unpack", "rid.eq", "rid.hash", "report.pack", "report.unpack", "report.roundtrip", "report.param_match", "report.source_data", "pfe", "rid.history"):
+    for m in ("rid.pack", "rid.as_u32", "rid.unpack", "rid.eq", "rid.hash", "report.pack", "report.unpack", "report.roundtrip", "report.param_match", "report.source_data", "pfe", "rid.history", "report.repack_after_change"):
         ctx.require(ctx.monitors.get(m, {}).get("evaluations", 0) > 0, f"monitor {m} never evaluated")
